@@ -165,12 +165,12 @@ impl Tour {
         let mut tour_nodes: Vec<NodeIdx> = self.nodes[..pos_seg_start].to_vec();
         tour_nodes.extend(self.nodes[pos_seg_end + 1..].iter().copied());
         let removed_nodes: Vec<NodeIdx> = self.nodes[pos_seg_start..pos_seg_end + 1].to_vec();
+        // a dummy tour can have lost the maintenance slots that connected its service trips
+        // (see new_dummy); a segment across such a gap is not a path and must not be handed on
+        let removed_path = Path::new(removed_nodes, self.network.clone())?
+            .ok_or_else(|| String::from("segment contains no non-depot node."))?;
         if tour_nodes.is_empty() || (!self.is_dummy() && tour_nodes.len() <= 2) {
-            return Ok((
-                None,
-                Path::new_trusted(removed_nodes, self.network.clone())
-                    .expect("empty path should be impossible."),
-            ));
+            return Ok((None, removed_path));
         }
 
         // 1) if the old tour had no maintenance node than the new tour has no maintenance node either.
@@ -179,9 +179,9 @@ impl Tour {
         // 3) if the old tour had a maintenance node and the removed segment had also a maintenance node
         //    than the new tour might have a second mateinance node, so we need to check all remaining nodes.
         let visits_maintenance = self.visits_maintenance
-            && (!removed_nodes
+            && (!removed_path
                 .iter()
-                .any(|n| self.network.node(*n).is_maintenance())
+                .any(|n| self.network.node(n).is_maintenance())
                 || tour_nodes
                     .iter()
                     .any(|n| self.network.node(*n).is_maintenance()));
@@ -197,8 +197,7 @@ impl Tour {
                 new_costs,
                 self.network.clone(),
             )),
-            Path::new_trusted(removed_nodes, self.network.clone())
-                .expect("empty path should be impossible."),
+            removed_path,
         ))
     }
 
